@@ -69,6 +69,10 @@ Contradictions(o) ==
     <<"rank-mismatch",  Mut(Mut(cr, a, "rank", 3), a, "nranks", 4)>>,
     <<"nranks-mismatch", Mut(Mut(cr, a, "rank", 1), a, "nranks", 5)>>,
     <<"nranks-missing", Mut(cr, d, "nranks", 0)>>,
+    \* a second thread of the process carries only a (different) rank count
+    <<"nranks-mismatch-without-rank", Mut(cr, a, "nranks", 5)>>,
+    \* the rank in one thread, the rank count in another one: the union is complete
+    <<"rank-and-nranks-split", Mut(Mut(cr, b, "nranks", 0), a, "nranks", 4)>>,
     <<"rank-ge-nranks", Mut(cr, d, "rank", 4)>>,
     <<"rank-partial",   Mut(Mut(cr, d, "rank", -1), d, "nranks", 0)>>,
     <<"index-two-phyids", Mut(c, a, "cpus", <<<<0, 15>>>>)>>,
